@@ -3,6 +3,7 @@
 Unit: tokenize (str_to_partial_tokens, try_skip_comment, char_to_partial_token, partial_tokens_to_tokens) from MIR on renderings of a
 token sequence whose gaps are filled with separators: every whitespace character is a free char constrained by is_whitespace,
 comment bodies are free chars. Oracle: the token vector (or error) equals that of the canonical rendering (one space per gap)."""
+import zlib
 import sys, os, time, random, itertools
 import z3
 sys.path.insert(0, os.path.dirname(os.path.dirname(os.path.abspath(__file__))))
@@ -11,6 +12,7 @@ from harness import *
 from engine import identical
 
 PID = 'C07'
+CVC5_RATE = [0.01]
 WORDS = ['a', '12', '1.5', 'true', 'x1']
 STRINGS = ['"s"']
 OPS = ['+', '-', '*', '/', '%', '^', '==', '!=', '>', '<', '>=', '<=', '&&', '||', '!', '(', ')', '=', '+=', '-=', '*=', '/=', '%=', '^=',
@@ -140,7 +142,7 @@ def same_result(meta, a, b):
 def unit(u, res):
     jobs, timeout_ms, seed = u
     C = ctx()
-    pr = checklib.Prover(res, timeout_ms)
+    pr = checklib.Prover(res, timeout_ms, CVC5_RATE[0], random.Random(zlib.crc32(repr(u).encode()) ^ checklib.env_seed()))
     for tokens, gaps, body_len in jobs:
         if gaps == 'UNTERMINATED':
             unterminated(C, pr, res, tokens, body_len)
@@ -327,6 +329,7 @@ def main():
     t0 = time.time()
     tier = checklib.env_tier()
     seed = checklib.env_seed()
+    CVC5_RATE[0] = 0.01 if tier == 'quick' else 0.1
     timeout_ms = 60000 if tier == 'quick' else 600000
     frontend.load(overflow_checks=True)
     jobs = jobs_for(tier, seed)
